@@ -154,8 +154,15 @@ def wellformed(files, extra=(), base=None):
     texts = []
     for fname, sf in files.items():
         for unit in list(sf.modules) + list(sf.routines):
-            problems += [f'scope: {b}' for b in scope_chain_ok(unit)[:3]]
-        t = sf.to_fortran()
+            try:
+                problems += [f'scope: {b}' for b in scope_chain_ok(unit)[:3]]
+            except Exception as ex:  # pylint: disable=broad-except
+                problems.append(f'traversal: walking the IR of {unit.name} raises {type(ex).__name__}: {str(ex)[:160]}')
+        try:
+            t = sf.to_fortran()
+        except Exception as ex:  # pylint: disable=broad-except
+            problems.append(f'backend: fgen of {fname} raises {type(ex).__name__}: {str(ex)[:160]}')
+            continue
         texts.append((fname, t))
         try:
             Sourcefile.from_source(t, frontend=Frontend.FP)
